@@ -16,7 +16,9 @@ type Root = refspec.Root
 type bview struct {
 	vc    *gossipbackend.ViewCase
 	lib   *gossipbackend.View
-	ref   *gossipmodel.View
+	ref   *gossipmodel.View // what senders know (the whole tree): honest messages are produced from it
+	rx    *gossipmodel.View // what the receiving node knows: the model judges on it (== ref unless the view is anchored)
+	full  *gossipbackend.View
 	sp    *refspec.Spec
 	chain *sim.Chain
 	recs  []gossipbackend.Record
@@ -55,6 +57,22 @@ func getView(vc *gossipbackend.ViewCase) *bview {
 			recs[i] = gossipmodel.Rec{Slot: r.Slot, IsBlock: r.IsBlock, BlockRoot: r.BlockRoot, ParentRoot: r.ParentRoot, State: r.Ref, Head: r.Head}
 		}
 		bv.ref = gossipmodel.NewView(bv.sp, recs)
+		bv.rx, bv.full = bv.ref, lib
+		if vc.Anchored && bv.ref.Fin.Epoch > 0 {
+			alib, keep := lib.Anchored()
+			var kept []gossipmodel.Rec
+			for _, rc := range recs {
+				if keep[[32]byte(rc.BlockRoot)] {
+					kept = append(kept, rc)
+				}
+			}
+			if len(kept) > 0 {
+				rx := gossipmodel.NewView(bv.sp, kept)
+				rx.GenesisRoot = bv.ref.GenesisRoot
+				rx.Fin = bv.ref.Fin
+				bv.lib, bv.rx = alib, rx
+			}
+		}
 	}
 	viewMu.Lock()
 	viewCache[k] = bv
